@@ -324,10 +324,73 @@ def w_json(m, lay, rng, variant):
          "name": m.title,
          "provenance": {"creator": "independent writer", "version": "1", "routine": "render"}}
     exp = {"atnums": m.z, "atcoords": m.xyz, "atmasses": m.masses, "charge": 1.0}
+    if variant == "massnumbers":
+        # a molecule document that gives the isotopes by mass number only: the mass of an atom is its mass number in u
+        del d["masses"]
+        d["mass_numbers"] = [1 + (3 * i) % 230 for i in range(m.natom)]
+        exp["atmasses"] = [float(a) for a in d["mass_numbers"]]
     if m.bonds:
         d["connectivity"] = [[i, j, t] for i, j, t in m.bonds[:50]]
         exp["bonds"] = [[i, j, t] for i, j, t in m.bonds[:50]]
     return "m.json", json.dumps(d, indent=1), exp
+
+
+def fortran_d(v, width=14, dec=6):
+    """Fortran D edit descriptor with a leading zero: 0.dddddd D+ee."""
+    if v == 0:
+        s = "0." + "0" * dec + "D+00"
+    else:
+        import math
+        e = int(math.floor(math.log10(abs(v)))) + 1
+        mant = round(abs(v) / 10.0 ** e, dec)
+        if mant >= 1.0:
+            mant /= 10.0
+            e += 1
+        s = f"{mant:.{dec}f}D{'+' if e >= 0 else '-'}{abs(e):02d}"
+        if v < 0:
+            s = "-" + s
+    return s.rjust(width)
+
+
+def w_gaussianlog(m, lay, rng, variant):
+    """Gaussian log with the matrices printed by IOp(3/33=5): lower triangle in blocks of five columns, D14.6 values."""
+    n = m.natom                                   # number of basis functions
+    mats = {}
+    lines = [" Entering Gaussian System, Link 0=g09", f"    NBasis ={n:4d}  MinDer = 0  MaxDer = 0", f"    NBasis ={n:4d}"]
+    for key, head, off in (("olp", " *** Overlap ***", 0.0), ("kin_ao", " *** Kinetic Energy ***", 0.2), ("na_ao", " ***** Potential Energy *****", 0.4)):
+        a = np.zeros((n, n))
+        for i in range(n):
+            for j in range(i + 1):
+                v = round((0.11 + off + 0.000731 * (i * (i + 1) // 2 + j)) % 0.9 + 0.1, 6) * (-1) ** (i + j + (key == "na_ao"))
+                a[i, j] = a[j, i] = v
+        mats["one_ints." + key] = a
+        lines.append(head)
+        for b0 in range(0, n, 5):
+            cols = range(b0, min(b0 + 5, n))
+            lines.append("".join(f"{c + 1:>{17 if k == 0 else 14}d}" for k, c in enumerate(cols)))
+            for i in range(b0, n):
+                lines.append(render_record(lay["glog_rowlabel"], {"row": i + 1}) + "".join(fortran_d(a[i, j]) for j in cols if j <= i))
+    exp = dict(mats)
+    if variant == "twoel" and n <= 5:
+        two = np.zeros((n, n, n, n))
+        lines += [" *** Dumping Two-Electron integrals ***", "", "", "", " ISMode= 1 Mode= 2 IBase=         1 IBasD=         1    131073",
+                  " DBase=     65537 DBasD=     65537    196609 IReset=         1         1",
+                  " IntCnt=         0 ITotal=       206 NWIIB=    131072 ISym2E=0"]
+        c = 0
+        for i in range(n):
+            for j in range(i + 1):
+                for k in range(n):
+                    for ll in range(k + 1):
+                        if i * (i + 1) // 2 + j >= k * (k + 1) // 2 + ll:
+                            c += 1
+                            v = round(0.1 + 0.00137 * c, 12)
+                            lines.append(render_record(lay["glog_twoel"], {"i": i + 1, "j": j + 1, "k": k + 1, "l": ll + 1}) + fortran_d(v, 20, 12))
+                            for a_, b_, c_, d_ in ((i, j, k, ll), (j, i, k, ll), (i, j, ll, k), (j, i, ll, k), (k, ll, i, j), (ll, k, i, j), (k, ll, j, i), (ll, k, j, i)):
+                                two[a_, c_, b_, d_] = v
+        lines.append(" Leave Link  302")
+        exp["two_ints.er_ao"] = two
+    lines.append(" Normal termination of Gaussian 09")
+    return "m.log", "\n".join(lines) + "\n", exp
 
 
 def _fchk_array(lay, label, vals, real):
@@ -408,17 +471,18 @@ def w_fchk(m, lay, rng, variant):
 
 WRITERS = {"xyz": w_xyz, "extxyz": w_extxyz, "sdf": w_sdf, "pdb": w_pdb, "gromacs": w_gro, "charmm": w_crd, "mol2": w_mol2,
            "poscar": w_poscar, "chgcar": w_chgcar, "locpot": w_locpot, "cube": w_cube, "fcidump": w_fcidump,
-           "gaussianinput": w_gaussianinput, "json_qcschema": w_json, "fchk": w_fchk}
+           "gaussianinput": w_gaussianinput, "json_qcschema": w_json, "fchk": w_fchk, "gaussianlog": w_gaussianlog}
 VARIANTS = {"xyz": ["plain", "numbers"], "poscar": ["direct", "cartesian", "selective", "scaled"], "cube": ["five", "ragged", "six", "one"],
-            "gromacs": ["rect", "triclinic"]}
+            "gromacs": ["rect", "triclinic"], "json_qcschema": ["plain", "massnumbers"], "gaussianlog": ["plain", "twoel"]}
 # coordinate digits written per format and the magnitude classes its columns can hold
 DIGITS = {"xyz": 8, "extxyz": 8, "sdf": 4, "pdb": 3, "gromacs": 3, "charmm": 5, "mol2": 4, "poscar": 8, "chgcar": 8, "locpot": 8, "cube": 6,
-          "fcidump": 3, "gaussianinput": 8, "json_qcschema": 8, "fchk": 8}
+          "fcidump": 3, "gaussianinput": 8, "json_qcschema": 8, "fchk": 8, "gaussianlog": 6}
 MAGS = {"sdf": ["small", "neg", "negwide", "negwider", "wide", "mixed"], "pdb": ["small", "neg", "negwide", "wide", "mixed"],
         "gromacs": ["small", "neg", "neghundred", "hundred", "mixed"], "charmm": ["small", "neg", "negwide", "negwider", "mixed"],
         "mol2": ["small", "negwide", "negwider", "mixed"], "cube": ["small", "neg", "negwide", "mixed"]}
 SIZES = {"xyz": [1, 3, 10, 100, 1200], "extxyz": [1, 3, 10, 120], "sdf": [1, 2, 9, 10, 99, 100, 101, 120, 500, 999],
          "pdb": [1, 2, 10, 99, 100, 1000, 9999, 10001, 12000], "gromacs": [1, 3, 10, 100, 1000, 10001], "charmm": [1, 3, 10, 100, 1000],
          "mol2": [1, 2, 10, 100, 1000], "poscar": [1, 2, 5, 8, 30], "chgcar": [1, 2, 5, 8], "locpot": [1, 2, 5], "cube": [1, 2, 3, 7],
-         "fcidump": [1, 2, 3, 4], "gaussianinput": [1, 3, 10, 60], "json_qcschema": [1, 3, 10, 100], "fchk": [1, 2, 3, 5, 6, 7, 11]}
+         "fcidump": [1, 2, 3, 4], "gaussianinput": [1, 3, 10, 60], "json_qcschema": [1, 3, 10, 100], "fchk": [1, 2, 3, 5, 6, 7, 11],
+         "gaussianlog": [1, 2, 4, 5, 6, 7, 10, 11, 12, 16, 21]}
 COORD_UNIT = {"gromacs": "nanometer", "cube": "au", "fchk": "au", "json_qcschema": "au"}
